@@ -661,6 +661,13 @@ theorem token_spent_across_restart (e e' : Env) (op : Op) (c c' : Cfg) (d : Dura
     client op (runOp e' op c' (restart true (runOp e op c d).1.d)) = .error := by
   rw [restart_keeps_database]; exact token_spent e e' op c c' d hop hr h0
 
+/-- **token_spent_across_reload.** A reload of the CA between the attempts changes nothing, with
+    or without a database: the recorded token is still refused, under any faults. -/
+theorem token_spent_across_reload (e e' : Env) (op : Op) (c c' : Cfg) (d : Durable)
+    (hop : op.usesToken = true) (hr : c.refused = false) (h0 : e.f 0 = .ok ∨ e.f 0 = .timeout) :
+    client op (runOp e' op c' (reload (runOp e op c d).1.d)) = .error :=
+  token_spent e e' op c c' d hop hr h0
+
 /-- what a restart keeps of the other records -/
 theorem restart_keeps_records (db : Bool) (d : Durable) :
     (restart db d).certs = d.certs ∧ (restart db d).revoked = d.revoked ∧ (restart db d).datas = d.datas := by
@@ -1212,6 +1219,15 @@ theorem issuing_routes_modelled :
     routeTable.all (fun r =>
       ((callerTable { e := 1, a := 1 }).all fun p => !(p.1 == r.2.1) || !r.2.2.isEmpty)) = true := by decide
 
+/-- the reloaded CA is always handed the open database (option list re-derived from the source) -/
+theorem reload_hands_database_over : reloadOptions.contains "WithDatabase" = true := by decide
+
+/-- the one-time-token provisioner types fail to give a token id only for a token that does not
+    parse (table re-derived from the source): a parsable token, with or without jti, is recorded -/
+theorem token_types_always_give_an_id :
+    (["JWK", "X5C", "SSHPOP"].all fun t => tokenIDErrors.any fun p => p.1 == t && p.2.1 == 2 && !p.2.2) = true := by
+  decide
+
 /-- every SCEP message type that carries a certificate request has its challenge validated
     (both lists are re-derived from the source on every run) -/
 theorem challenge_covers_csr_types : csrTypes.all (fun t => challengedTypes.contains t) = true := by decide
@@ -1241,6 +1257,8 @@ def wh (e a : Nat) : Cfg := { e := e, a := a }
 example : let r := runOp noDB .sign (wh 1 1) {}
     client .sign r = .certificate ∧ r.1.d.certs = 0 ∧ r.1.log.length = 3 := by decide
 example : client .revoke (runOp noDB .revoke (wh 0 0) {}) = .error := by decide
+/-- … while a reload keeps it: the used token is refused again although nothing is on disk -/
+example : client .sign (runOp noDB .sign (wh 0 0) (reload (runOp noDB .sign (wh 0 0) {}).1.d)) = .error := by decide
 /-- without a database the used-token set does not survive a restart (C02's subject, outside
     C17's "when a database is configured"): the same token is accepted again -/
 example : client .sign (runOp noDB .sign (wh 0 0) (restart false (runOp noDB .sign (wh 0 0) {}).1.d)) = .certificate := by decide
